@@ -93,13 +93,30 @@ def hy2py_text(src):
     return buf.getvalue()
 
 
+NOTE = {}  # side channel from check_case to the shard loop (why a case was not judged)
+RESERVED = ("E", "CM", "XA", "XB", "XC", "RESULT", "MAIN")
+
+
+def names_ok(prog, names):
+    """the renaming the generator makes: injective, onto EXOTIC names the program and the harness do not use"""
+    if not isinstance(names, dict):
+        return False
+    ns = names_of(prog)
+    vals = list(names.values())
+    return (len(set(vals)) == len(vals) and all(k in ns for k in names)
+            and all(isinstance(v, str) and v in EXOTIC and v not in ns and v not in RESERVED for v in vals))
+
+
 def check_case(case):
     import ast
 
     prog = case["prog"]
     if not P.valid(prog):
         return None
-    prog = rename(prog, case.get("names", {}))
+    names = case.get("names", {})
+    if not names_ok(prog, names):
+        return None  # (a reduced case whose renaming merges two variables is a different program, possibly a non-terminating one)
+    prog = rename(prog, names)
     mode = case.get("mode", "module")
     src = P.wrap_source(prog, mode)
     try:
@@ -113,11 +130,22 @@ def check_case(case):
         return ("hy2py-raised:" + type(e).__name__, dict(source=src, error=str(e)[:200]))
     if printed.rstrip("\n") != text.rstrip("\n"):
         return ("hy2py-differs-from-unparse", dict(source=src, hy2py=printed[:500], unparse=text[:500]))
+    NOTE.clear()
+    try:
+        code_ast = compile(tree, "<ast>", "exec")
+    except SyntaxError as e:
+        # Python rejects the compiled AST itself (e.g. `break` in a comprehension's iterable, which Hy moves into a
+        # function): not "a program the compiler accepts". The printed text must be rejected too, nothing else is claimed.
+        try:
+            compile(printed, "<hy2py>", "exec")
+        except SyntaxError:
+            NOTE["skipped"] = "skipped:python-rejects-the-compiled-ast-and-the-text"
+            return None
+        return ("ast-rejected-but-text-accepted", dict(source=src, python=printed[:800], error=str(e)[:200]))
     try:
         code_text = compile(printed, "<hy2py>", "exec")
     except SyntaxError as e:
         return ("hy2py-output-not-python", dict(source=src, python=printed[:800], error=str(e)[:200]))
-    code_ast = compile(tree, "<ast>", "exec")
     fault = case.get("fault")
 
     def run(code):
@@ -130,6 +158,8 @@ def check_case(case):
             out["value"] = P.canon(ns.get("RESULT"))
         except (P.XA, P.XB, P.XC) as x:
             out["exc"] = "%s:%s" % (type(x).__name__, x.payload)
+        except P.XRUNAWAY:
+            out["exc"] = "runaway"
         except Exception as x:  # noqa
             out["exc"] = "python:" + type(x).__name__
         out["log"] = h.log
@@ -172,7 +202,7 @@ def shard(ctx):
         # never rename to a name that the program or the harness already uses
         m = {}
         for old, new in zip(ns, exotic):
-            if new not in ns and new not in ("E", "CM", "XA", "XB", "XC", "RESULT", "MAIN"):
+            if new not in ns and new not in RESERVED:
                 m[old] = new
         case = dict(prog=prog, mode=mode, names=m)
         if cls and k:
@@ -181,6 +211,8 @@ def shard(ctx):
         src = P.wrap_source(rename(prog, m), mode)
         ctx.case(key=(src, k if cls else 0, cls), nontrivial=bool(feats), cls=feats or ["plain"], sample=src)
         r = check_case(case)
+        if NOTE.get("skipped"):
+            ctx.count(NOTE["skipped"])
         if r is not None:
             ctx.fail(case, r[0], r[1])
 
